@@ -118,6 +118,8 @@ type hBlock struct {
 type hProg struct {
 	Gen    hGenesis `json:"genesis"`
 	Blocks []hBlock `json:"blocks"`
+	// C01 only: a store-level iterator-schedule program instead of a chain history
+	IterLag *iterLagProg `json:"iterlag,omitempty"`
 }
 
 // all governance-owned parameters, in a fixed order (the ACL must name an owner for each)
